@@ -92,6 +92,16 @@ func (w *World) internalQuiet() bool {
 
 func (m *CacheMon) Step(w *World, _ string) {
 	m.hook(w)
+	// one event subscription per resource name at a time
+	seen := map[string]bool{}
+	for _, sub := range w.MQ.ActiveSubs() {
+		if strings.HasPrefix(sub.Namespace, "event.") {
+			if seen[sub.Namespace] {
+				w.Fail("C09", "duplicate-event-subscription", "two subscriptions on %s are active at the same time", w.Canon(sub.Namespace))
+			}
+			seen[sub.Namespace] = true
+		}
+	}
 	snap := w.CacheSnaps()
 	quiet := w.internalQuiet()
 	pend := map[string]int{}
